@@ -149,6 +149,26 @@ impl Prop for C07 {
       if rope != text {
         return Err(format!("rope() renders to {rope:?}, source() is {text:?}"));
       }
+      // the same views on a second object on which map() and the chunk stream were asked FIRST (a lazily
+      // decoded leaf must decode the same way whichever observer reaches it first)
+      {
+        let late = build(spec);
+        // (map() / streaming of a non-ASCII tree may run into known finding W2; that is C17's business, here
+        // the calls only serve to touch the leaves first)
+        let touched = crate::props::common::lib(spec, "map() / stream before the text views", || {
+          let _ = late.map(&crate::observe::opts(true, false));
+          let _ = crate::observe::stream(&*late, &crate::observe::opts(false, false));
+        })?;
+        let (lt, lr, lb, ls) = (late.source().to_string(), late.rope().to_string(), late.buffer().to_vec(), late.size());
+        if matches!(touched, crate::props::common::Lib::Known) {
+          // nothing to compare after a tolerated panic half-way
+        } else if lt != want_text || lr != want_text || lb != want_bytes || ls != want_bytes.len() {
+          return Err(format!(
+            "after map() and a chunk stream were called first, source()={lt:?} rope()={lr:?} buffer()={lb:?} size()={ls}; the reference text is {want_text:?} ({} bytes)",
+            want_bytes.len()
+          ));
+        }
+      }
       // the rope a source hands out is a faithful rope of that text: every observer agrees (C16's model)
       crate::props::c16::check_unary(&src.rope(), &text).map_err(|e| format!("rope() of the source: {e}"))?;
       let buf = src.buffer().to_vec();
